@@ -158,6 +158,44 @@ let run_handler () =
     List.iter (fun f -> Printf.printf "SEEN %s\n" (str_of_id f.sf_id)) seen
   | _ -> failwith "handler: missing CONF/PROG"
 
+(* ---- codec mode (Model/Codec.v): TTL and ReadOptions grammars on decoded strings / pairs ---- *)
+let bytes_of_string (s : string) : bytes = List.init (String.length s) (fun i -> n_of_int (Char.code s.[i]))
+let string_of_bytes (b : bytes) : string = String.init (List.length b) (fun i -> Char.chr (int_of_n (List.nth b i)))
+(* ids travel as "ID:<hex32>" in the model's pairs (the scru128 text form is an oracle) *)
+let model_print_id (i : n) : bytes = bytes_of_string ("ID:" ^ hex_of_n ~width:32 i)
+let model_parse_id (b : bytes) : n option =
+  let s = string_of_bytes b in
+  if String.length s = 35 && String.sub s 0 3 = "ID:" then (try Some (n_of_hex (String.sub s 3 32)) with _ -> None) else None
+let max_usize = n_of_hex "ffffffffffffffff"
+
+let rec pairs_of = function
+  | k :: v :: r -> (bytes_of_xhex k, bytes_of_xhex v) :: pairs_of r
+  | _ -> []
+
+let str_of_ro (o : ropts) =
+  Printf.sprintf "ok follow=%s tail=%d last=%s limit=%s ctx=%s"
+    (match o.ro_follow with FOff -> "off" | FOn -> "on" | FHeartbeat ms -> "hb:" ^ hex_of_n ms)
+    (if o.ro_tail then 1 else 0)
+    (match o.ro_last with Some i -> str_of_id i | None -> "-")
+    (match o.ro_limit with Some i -> hex_of_n i | None -> "-")
+    (match o.ro_ctx with Some i -> str_of_id i | None -> "-")
+
+let run_codec () =
+  List.iter (fun line ->
+      let toks = List.filter (fun s -> s <> "") (String.split_on_char ' ' (String.trim line)) in
+      let out = match toks with
+        | ["ttl"; s] -> (match parse_ttl (bytes_of_xhex s) with Some t -> "ok " ^ str_of_ttl (Some t) | None -> "err")
+        | "ttlp" :: ps -> (match ttl_of_pairs (pairs_of ps) with Some t -> "ok " ^ str_of_ttl (Some t) | None -> "err")
+        | ["ttl2s"; t] -> (match ttl_of t with Some t -> xhex_of_bytes (ttl_to_string t) | None -> "?")
+        | "ro" :: ps -> (match ro_of_pairs model_parse_id max_usize (pairs_of ps) with Some o -> str_of_ro o | None -> "err")
+        | ["ro2p"; follow; tail; last; limit; ctx] ->
+          let f = if follow = "off" then FOff else if follow = "on" then FOn
+            else FHeartbeat (n_of_hex (String.sub follow 3 (String.length follow - 3))) in
+          let o = { ro_follow = f; ro_tail = (tail = "1"); ro_last = opt id_of last; ro_limit = opt n_of_hex limit; ro_ctx = opt id_of ctx } in
+          String.concat " " (List.concat_map (fun (k, v) -> [xhex_of_bytes k; xhex_of_bytes v]) (ro_to_pairs model_print_id o))
+        | _ -> "?" in
+      print_endline out) (read_lines ())
+
 (* `gen-sched <locked 0|1> <seed> <steps> <finish 0|1>`: stdin = configuration lines;
    stdout = schedule with expectations.
    `labels-sched <locked>`: stdin = configuration lines followed by "label idx" lines. *)
@@ -166,6 +204,7 @@ let () =
   | _ :: "seq" :: _ -> run_seq ()
   | [_; "http"; fixed] -> run_http (fixed = "1")
   | [_; "handler"] -> run_handler ()
+  | [_; "codec"] -> run_codec ()
   | [_; "gen-sched"; locked; seed; steps; finish] ->
     let cfg = Schedgen.parse_cfg (read_lines ()) in
     List.iter print_endline
